@@ -16,9 +16,61 @@ ASSUMPTIONS = ['the compiler destroys coroutine arguments/locals exactly once wh
 H = 'cocls::async::_h'
 
 
+def _null_reset(x, path=None):
+    return x.k == 'call' and norm(x.get('callee') or '') == 'std::coroutine_handle::operator=' and (path is None or x.get('recv') == path) and norm(x.get('field') or '') == H and \
+        ((x.get('args') or [{}])[0].get('const') == 0 or ((x.get('args') or [{}])[0].get('path') or '') in NULLS)
+
+
+def _copy_out(e):
+    """a copy of the handle member into a new handle object (auto h = _h;): returns the path copied from"""
+    if e.k == 'construct' and norm(e.get('callee') or '') == 'std::coroutine_handle::coroutine_handle' and len(e.get('args') or []) == 1 and norm(e['args'][0].get('field') or '') == H:
+        return e['args'][0].get('path')
+    return None
+
+
+def unrolled_take(db, f, e):
+    """auto h = _h; _h = nullptr;  - an exchange written out: on every path through the copy the member is reset to null before anything else
+    touches it or the function is left"""
+    src = _copy_out(e)
+    if not src:
+        return False
+    T = Tracer(db, depth=0)
+    n = 0; resets = set()
+    for tr in T.traces(f):
+        i = next((j for j, it in enumerate(tr) if it.get('id') == e.get('id') and it.k == e.k and it.get('depth', 0) == 0), None)
+        if i is None:
+            continue
+        n += 1
+        nxt = next((it for it in tr[i + 1:] if it.k in ('call', 'construct', 'write', 'read') and (norm(it.get('field') or '') == H or any(norm(a.get('field') or '') == H for a in it.get('args') or []))), None)
+        if nxt is None or not _null_reset(nxt, src):
+            return False
+        resets.add(nxt.get('loc'))
+    if n > 0:
+        _TAKE_RESETS.setdefault(id(db), set()).update(resets)
+    return n > 0
+
+
+_TAKE_RESETS = {}
+
+
+def _find_unrolled_takes(db):
+    if id(db) in _TAKE_RESETS:
+        return
+    _TAKE_RESETS[id(db)] = set()
+    for f in db.all_instances():
+        if not f['nname'].startswith('cocls::async::'):
+            continue
+        for e in f.events():
+            if _copy_out(e):
+                unrolled_take(db, f, e)
+
+
 def is_take(it):
-    return it.k == 'call' and norm(it.get('callee')) == 'std::exchange' and it.get('args') and norm(it['args'][0].get('field') or '') == H and \
-        (it['args'][1].get('path') in ('ctor()', '{}', 'nullptr') or it['args'][1].get('const') == 0)
+    if it.k == 'call' and norm(it.get('callee')) == 'std::exchange' and it.get('args') and norm(it['args'][0].get('field') or '') == H and \
+            (it['args'][1].get('path') in ('ctor()', '{}', 'nullptr') or it['args'][1].get('const') == 0):
+        return True
+    # the exchange written out (copy, then reset to null): the reset is the take; handle_linear checks that the copy is followed by it on every path
+    return bool(_null_reset(it) and any(it.get('loc') in s_ for s_ in _TAKE_RESETS.values()))
 
 
 def run(ctx, db, tier):
@@ -38,6 +90,7 @@ def run(ctx, db, tier):
     bound_party_optional(ctx, db)
     C11.closures(ctx, db, 'C04.pool-closure-owns-coroutine', 'C04.pool-closure-runs-once')
     C11.stop(ctx, db, 'C04.pool-drops-unstarted-outside-lock')
+    C11.enqueue(ctx, db, 'C04.pool-wakes-a-worker-per-start')
     if ctx.cfg == 'assert':
         witness.positive(ctx, 'C04.types', 'C04_pos.cpp', 'initial_suspend is suspend_always, final_suspend is noexcept, async<T> is move-only, join()/wait() hand out values that outlive the temporary future')
         witness.negative(ctx, 'C04.types-neg', 'C04_neg.cpp', 'copying an async object must not compile')
@@ -131,6 +184,11 @@ def handle_linear(ctx, db, rid_='C04.handle-linear'):
                 kind = 'null comparison'
             elif e.k == 'call' and norm(e.get('field') or '') == H and c == 'std::coroutine_handle::operator=' and ((e.get('args') or [{}])[0].get('const') == 0 or ((e.get('args') or [{}])[0].get('path') or '') in NULLS):
                 kind = 'reset to null'
+            elif e.k == 'call' and norm(e.get('field') or '') == H and c == 'std::coroutine_handle::operator=' and f['nname'] == 'cocls::async::async' and e.get('recv') == 'this->_h' and \
+                    ((e.get('args') or [{}])[0].get('path') or '').startswith('param:'):
+                kind = 'initialisation in the constructor body from the constructor argument'
+            elif unrolled_take(db, f, e):
+                kind = 'copied out and reset to null at once on every path (an exchange written out)'
             elif e.k == 'construct' and c == 'std::coroutine_handle::coroutine_handle' and f['nname'] in ('cocls::async::async', 'cocls::async::operator=') and \
                     any(x.k == 'call' and norm(x.get('callee') or '') == 'std::coroutine_handle::operator=' and x.get('recv') in [a.get('path') for a in e.get('args', [])] and
                         ((x.get('args') or [{}])[0].get('const') == 0 or ((x.get('args') or [{}])[0].get('path') or '') in NULLS) for x in f.events()):
@@ -159,6 +217,7 @@ def entries(ctx, db, rid_='C04.start-once'):
     rid = ctx.rule(rid_, 'COUNT (interval summaries)', 'every start entry reaches std::exchange(_h, null) at most once on every path through its whole call tree, and exactly once '
                    'where it must start (detach, start_coro, co_await); computed bottom-up over the call graph', floor=6)
     cache = {}
+    _find_unrolled_takes(db)
     for name, lo, hi, what in ENTRIES:
         fns = db.fns(name)
         if name == 'cocls::thread_pool::run':
